@@ -184,3 +184,79 @@ End Chk.
 
 Definition canon_chk := canon_chk_c dcmp.            (* the code as it is *)
 Definition canon_chk_repaired := canon_chk_c dcmp2.  (* after the proposed tie-break repair *)
+
+(* ================================================================================================
+   incremental.Run with memory: the memoised tasks keep their diagnostics in slices, and Run builds its
+   report with append and sorts it in place.  A slice is a backing array (index into the heap) and a
+   length (every slice here starts at offset 0: they are all built by append from nil); its capacity is
+   the length of the array.  Canonicalize is an arbitrary function from the visible content to a list
+   that is not longer (sort, mark, delete), written back in place with zero values behind it, as
+   slices.SortFunc and slices.DeleteFunc do.
+   ================================================================================================ *)
+Record slice := mkslice { sl_arr : option nat; sl_len : nat }.      (* None: the nil slice *)
+Definition heap := list (list cdiag).
+Definition zero_diag : cdiag := mkcd zero_span 0 [] [] 0 0.
+
+Definition read (h : heap) (s : slice) : list cdiag :=
+  match sl_arr s with None => [] | Some a => firstn (sl_len s) (nth a h []) end.
+
+Definition set_arr (h : heap) (a : nat) (v : list cdiag) : heap := firstn a h ++ v :: skipn (S a) h.
+Definition write_at (arr : list cdiag) (pos : nat) (xs : list cdiag) : list cdiag :=
+  firstn pos arr ++ xs ++ skipn (pos + length xs) arr.
+
+(* append(s, xs...): in place when the capacity suffices, otherwise a new array with some spare room
+   (spare: any growth policy) *)
+Definition go_append (spare : nat -> nat) (h : heap) (s : slice) (xs : list cdiag) : heap * slice :=
+  match xs with
+  | [] => (h, s)
+  | _ :: _ =>
+    match sl_arr s with
+    | None => (h ++ [xs ++ repeat zero_diag (spare (length xs))], mkslice (Some (length h)) (length xs))
+    | Some a =>
+      let arr := nth a h [] in
+      let n := (sl_len s + length xs)%nat in
+      if Nat.leb n (length arr)
+      then (set_arr h a (write_at arr (sl_len s) xs), mkslice (Some a) n)
+      else (h ++ [firstn (sl_len s) arr ++ xs ++ repeat zero_diag (spare n)], mkslice (Some (length h)) n)
+    end
+  end.
+
+(* the loop of Run as it is: report.Diagnostics = append(report.Diagnostics, node.report.Diagnostics...) *)
+Fixpoint collect (spare : nat -> nat) (h : heap) (rep : slice) (tasks : list slice) : heap * slice :=
+  match tasks with
+  | [] => (h, rep)
+  | t :: r => let '(h', rep') := go_append spare h rep (read h t) in collect spare h' rep' r
+  end.
+
+(* the seeded variant: the first non-nil task slice is taken over instead of copied *)
+Fixpoint collect_alias (spare : nat -> nat) (h : heap) (rep : slice) (tasks : list slice) : heap * slice :=
+  match tasks with
+  | [] => (h, rep)
+  | t :: r =>
+    match sl_arr rep with
+    | None => collect_alias spare h t r
+    | Some _ => let '(h', rep') := go_append spare h rep (read h t) in collect_alias spare h' rep' r
+    end
+  end.
+
+Definition canon_inplace (canon : list cdiag -> list cdiag) (h : heap) (rep : slice) : heap * slice :=
+  match sl_arr rep with
+  | None => (h, rep)
+  | Some a =>
+    let arr := nth a h [] in
+    let out := canon (firstn (sl_len rep) arr) in
+    (set_arr h a (out ++ repeat zero_diag (sl_len rep - length out) ++ skipn (sl_len rep) arr),
+     mkslice (Some a) (length out))
+  end.
+
+Definition run_heap (spare : nat -> nat) (canon : list cdiag -> list cdiag) (h : heap) (tasks : list slice)
+  : heap * slice :=
+  let '(h1, rep) := collect spare h (mkslice None 0) tasks in canon_inplace canon h1 rep.
+
+Definition run_heap_alias (spare : nat -> nat) (canon : list cdiag -> list cdiag) (h : heap) (tasks : list slice)
+  : heap * slice :=
+  let '(h1, rep) := collect_alias spare h (mkslice None 0) tasks in canon_inplace canon h1 rep.
+
+(* a task slice lives in the heap *)
+Definition slice_ok (h : heap) (s : slice) : Prop :=
+  match sl_arr s with None => True | Some a => (a < length h)%nat /\ (sl_len s <= length (nth a h []))%nat end.
